@@ -14,6 +14,13 @@ Fixpoint run_states (d : design St) (s : state St) (steps : list step_t) : list 
 
 Definition run_trace (d : design St) (s : state St) (steps : list step_t) : list (list Z) :=
   map vals (run_states d s steps).
+
+(* Simulator construction when some leaves drive a wire from their constructor (a register shows its initial value
+   on q at power-up): every wire 0, the constructor-time puts, then propagateAll.  Equal to `init` when pokes = []. *)
+Definition init_poked (d : design St) (st0 : list St) (pokes : list (nat * Z)) : state St :=
+  let z := {| vals := map (fun _ => 0) (widths d); pend := []; sts := st0; total := O |} in
+  let s := fold_left (fun s p => poke d s (fst p) (snd p)) pokes z in
+  {| vals := propagateAll d (vals s); pend := []; sts := st0; total := O |}.
 End T.
 
 Fixpoint diff_row (k : nat) (e g : list Z) : option (nat * Z * Z) :=
